@@ -30,7 +30,7 @@ def summary (s : Slave) : String :=
     let c := s.conn i
     if c.isUsed then
       let win := if c.win.isEmpty then "-" else ",".intercalate (c.win.map fun e => toString e.seq)
-      some s!" [{i}:h{hidOf c.sock} st={c.state} run={b2s c.isRunning} vs={c.vs} vr={c.vr} un={c.unconf} rb={c.recvBuf.length} win={win}]"
+      some s!" [{i}:h{hidOf c.sock} st={c.state} run={b2s c.isRunning} vs={c.vs} vr={c.vr} un={c.unconf} rb={c.recvBuf.length} tf={b2s c.waitingTestFR} win={win}]"
     else none
   let g := s.grp 0
   let lq := String.join (g.lowQ.toList.map fun e => s!"{e.id}/{e.st}/{e.data.length},")
